@@ -159,6 +159,18 @@ where
             break;
         }
     }
+    // hidden-position lists that reach beyond the attribute count (after a valid position, before it, alone): the
+    // request must be refused, and a refusal must leave nothing behind - the honest proof is verified again on
+    // this thread right after each refusal
+    for (tag, hl) in [("valid-then-out-of-range", [hidden.clone(), vec![n + 4]].concat()), ("out-of-range-then-valid", [vec![n], hidden.clone()].concat()), ("out-of-range-only", vec![n + 1])] {
+        gate("hidden-position-out-of-range", &zk, &c_issuer, t_issuer.as_ref(), key, &bases, cpk, &hl, format!("{}: {:?}", tag, hl))?;
+        // also at generation (a holder library that is asked for a proof over such a list)
+        let _ = catch(|| ZKPoK::<CL03<CS>>::generate_proof(&msgs, &cc, trusted_c.as_ref(), pk, &bases, cpk, &hl));
+        rep.eval(ck, 1);
+        if !catch(|| zk.verify_proof(&c_issuer, t_issuer.as_ref(), pk, &bases, cpk, &hidden)).unwrap_or(false) {
+            return rep.fail(ck, "honest-issuance-proof-rejected-after-a-refusal", format!("after a refused request ({}: {:?}) the honest proof for hidden set {:?} of {} no longer verifies on the same thread", tag, hl, hidden, n), cj(json!({"after": tag})));
+        }
+    }
     // other bases / other issuer key
     {
         let ob = Bases::generate(pk, n);
@@ -225,6 +237,19 @@ where
                 }
             }
         }
+    }
+    // after all the refusals above: the honest proof still verifies and a freshly generated one does too
+    rep.eval(ck, 2);
+    if !catch(|| zk.verify_proof(&c_issuer, t_issuer.as_ref(), pk, &bases, cpk, &hidden)).unwrap_or(false) {
+        return rep.fail(ck, "honest-issuance-proof-rejected-after-a-refusal", format!("after the refused requests of this case the honest proof for hidden set {:?} of {} no longer verifies on the same thread", hidden, n), cj(json!({"after": "all negative families"})));
+    }
+    match catch(|| ZKPoK::<CL03<CS>>::generate_proof(&msgs, &cc, trusted_c.as_ref(), pk, &bases, cpk, &hidden)) {
+        Ok(z9) => {
+            if !catch(|| z9.verify_proof(&c_issuer, t_issuer.as_ref(), pk, &bases, cpk, &hidden)).unwrap_or(false) {
+                return rep.fail(ck, "honest-issuance-proof-rejected-after-a-refusal", format!("a proof generated after the refused requests of this case does not verify (hidden set {:?} of {})", hidden, n), cj(json!({"after": "all negative families", "generated": "after"})));
+            }
+        }
+        Err(p) => return rep.fail(ck, "generate-proof-panicked", format!("generate_proof after refused requests: {}", p), cj(json!(null))),
     }
     // field-wise edits of every integer leaf of the proof
     let leaves = int_leaves(&zk_json);
@@ -313,7 +338,7 @@ pub fn run(ctx: &Ctx, rep: &Report) -> Meta {
     Meta {
         rule: "issuer key from a pool, n attributes, EVERY non-empty hidden set for n = 1..3 (quick) / 1..5 (thorough) plus generated (n <= 4/5, hidden set, attribute classes), with and without a trusted-party commitment (commitment key over its own modulus); \
                positive: verify_proof true (the issuer is given the commitment value only), proof survives JSON, blind_sign returns, the unblinded signature verifies on the full vector, re-issuing with a changed revealed attribute verifies on the new vector and not on the old; \
-               negative: commitment to other attributes / C*b, another hidden set of the same size, other bases, other issuer key, wrong trusted commitment: verify_proof false AND blind_sign refuses; \
+               negative: commitment to other attributes / C*b, another hidden set of the same size, hidden-position lists reaching beyond the attribute count (each refusal followed by a re-verification of the honest proof on the same thread), other bases, other issuer key, wrong trusted commitment: verify_proof false AND blind_sign refuses; \
                every integer leaf of the serialised proof perturbed by +1, -1, := 0, := sibling, one high bit flipped, +2^k for k in {128, 160, 256, 300} (16-24 sampled perturbations per proof in quick, all in thorough's fixed list): verify_proof false; every composite node of the serialised proof (sub-proof, array, array element) replaced by the node at the same path of a second honest proof for other hidden values (same key, bases, positions), for every second case: verify_proof false; \
                n = 6 and 8 with first / last / all / alternating hidden sets; a proof without the trusted-party sub-proof presented to an issuer that requires one, a sub-proof checked against another commitment key; non-trivial = hidden set != {0} (the crate's only tested configuration); evaluations = verifier / issuer decisions"
             .into(),
